@@ -1,4 +1,5 @@
 import os
+import re
 import xml.etree.ElementTree as ElementTree
 
 from prophyc import model, six
@@ -154,7 +155,9 @@ def make_struct_members(xml_elem, dynamic_array=False):
             size = dimension.get("size", None)
             size2 = dimension.get("size2", None)
             if size2:
-                size = "{}*{}".format(size, size2)
+                def factor(expr):
+                    return expr if re.match(r"\w+$", str(expr)) else "({})".format(expr)
+                size = "{}*{}".format(factor(size), factor(size2))
             if optional:
                 yield model.StructMember("has_" + xml_elem_name, "u32", docstring="implicit enabler for optional field")
 
